@@ -46,7 +46,8 @@ def proj_index(st, proj_path, spec):
             arr = st.ev.replaced_memories[obj]
             out.append((name, [pos[s] for s in arr]))
         elif isinstance(obj, (list, tuple)):
-            out.append((name, [pos[s] for s in obj]))
+            # an int element = a register this configuration does not have (constant), as for scalar entries
+            out.append((name, [("const", s) if isinstance(s, int) else pos[s] for s in obj]))
         elif isinstance(obj, int):
             out.append((name, ("const", obj)))     # a register the configuration does not have (width 0)
         elif isinstance(obj, Signal):
@@ -64,7 +65,7 @@ def project(index, state):
         if isinstance(ix, tuple):
             r[name] = ix[1]
         else:
-            r[name] = [int(state[i]) for i in ix] if isinstance(ix, list) else int(state[ix])
+            r[name] = [i[1] if isinstance(i, tuple) else int(state[i]) for i in ix] if isinstance(ix, list) else int(state[ix])
     return r
 
 
